@@ -11,7 +11,7 @@ def sh(cmd, cwd=REPO):
     return p.returncode, p.stdout
 
 def main():
-    d = os.path.join(VERIF, "benign")
+    d = os.path.join(VERIF, os.environ.get("BENIGN_DIR", "benign"))
     only = sys.argv[1:]
     rows = []
     for name in sorted(os.listdir(d)):
